@@ -4,7 +4,7 @@
    Statements only; proofs in PipelineFacts.v / PipelineOptFacts.v.  Tied to the real tool byte for byte by
    harness/c17_pipeline.py. *)
 From Coq Require Import ZArith List Bool Ascii String.
-From Cnfgen Require Import Sem Comb Linear IR Text Dimacs DimacsFacts Cli GraphSpec Subst Fam_php Fam_ordering C03_Util.
+From Cnfgen Require Import Sem Comb Linear IR Text Dimacs DimacsFacts OpbText Cli GraphSpec Subst Fam_php Fam_ordering C03_Util.
 From Cnfgen Require Import Header PipelineGraph Pipeline PipelineFacts PipelineOptFacts PipelineHeader PipelineHeaderFacts.
 Import ListNotations.
 Open Scope Z_scope.
@@ -66,14 +66,15 @@ Print Assumptions pipeline_chunks.
 (* ------------------------------------------------------------------ *)
 (* what is written is the formula: round trip and literal range        *)
 (* ------------------------------------------------------------------ *)
-(* whenever the program writes a text, that text is the DIMACS rendering of the transformed family model, every
-   literal is within 1..numvar, and a strict reader (either newline convention) returns exactly (numvar, clauses in
-   order).  `printable z`: z has at most 4300 decimal digits (CPython's limit for str/int; beyond it the real tool
+(* whenever the program writes a text, that text is the DIMACS (or, under -of opb, OPB) rendering of the transformed
+   family model, every literal is within 1..numvar, and a strict reader of that format returns exactly (numvar,
+   clauses in order):  pl_reads_back false t n F := forall u, parse_dimacs u t = DOk n F  (either newline convention),
+   pl_reads_back true t n F := parse_opb t = OOk n (map clause_pbc F)  (a clause is `sum of its literals >= 1`).  `printable z`: z has at most 4300 decimal digits (CPython's limit for str/int; beyond it the real tool
    raises ValueError while writing) *)
 Theorem pipeline_roundtrip : forall argv text, cnfgen_main argv = POut text ->
-  exists n F, pl_formula argv = FrOk n F /\ text = print_dimacs None None n F /\
+  exists n F, pl_formula argv = FrOk n F /\ text = pl_write (pl_opb_of argv) None n F /\
               0 <= n /\ lits_in_range n F = true /\
-              (printable n -> printable (len F) -> forall u, parse_dimacs u text = DOk n F).
+              (printable n -> printable (len F) -> pl_reads_back (pl_opb_of argv) text n F).
 Proof. exact cnfgen_main_roundtrip. Qed.
 Print Assumptions pipeline_roundtrip.
 
@@ -124,7 +125,7 @@ Print Assumptions pipeline_php_one_argument.
 (* op N with one of --total -t --smart -s --knuth2 --knuth3 (or none) and one of --plant -p (or none), after or
    before N: OrderingPrinciple(N, total, smart, plant, knuth) with exactly those values *)
 Theorem pipeline_op_options : forall sn n v p, pl_nat_token sn n ->
-  let out := pl_render true (pl_of_c3 to_cnf (op_formula n (pl_opvar_total v) (pl_opvar_smart v) (pl_plantvar_on p) (pl_opvar_knuth v))) in
+  let out := pl_render true false (pl_of_c3 to_cnf (op_formula n (pl_opvar_total v) (pl_opvar_smart v) (pl_plantvar_on p) (pl_opvar_knuth v))) in
   cnfgen_main (List.app ["-q"%string; "op"%string; sn] (List.app (pl_opvar_strs v) (pl_plantvar_strs p))) = out /\
   cnfgen_main (List.app ["-q"%string; "op"%string] (List.app (List.app (pl_plantvar_strs p) (pl_opvar_strs v)) [sn])) = out.
 Proof. exact op_options. Qed.
@@ -136,6 +137,24 @@ Theorem pipeline_op_exclusive : forall sn n v w, pl_nat_token sn n ->
   cnfgen_main (List.app ["-q"%string; "op"%string; sn] (List.app (pl_opvar_strs v) (pl_opvar_strs w))) = PCliError.
 Proof. exact op_exclusive. Qed.
 Print Assumptions pipeline_op_exclusive.
+
+(* the output format selects the writer and changes nothing else: same formula object (hence same errors) ... *)
+Theorem pipeline_output_format_same_formula : forall rest,
+  pl_formula ("-q"%string :: "-of"%string :: "opb"%string :: rest) = pl_formula ("-q"%string :: rest) /\
+  pl_formula ("-q"%string :: "--output-format"%string :: "opb"%string :: rest) = pl_formula ("-q"%string :: rest) /\
+  pl_formula ("-q"%string :: "-of"%string :: "dimacs"%string :: rest) = pl_formula ("-q"%string :: rest).
+Proof. exact output_format_same_formula. Qed.
+Print Assumptions pipeline_output_format_same_formula.
+
+(* ... written by the DIMACS writer or by the OPB writer *)
+Theorem pipeline_output_format : forall name args n F, pl_starts_dash (lit name) = false ->
+  pl_formula ("-q"%string :: name :: args) = FrOk n F ->
+  cnfgen_main ("-q"%string :: name :: args) = POut (print_dimacs None None n F) /\
+  cnfgen_main ("-q"%string :: "-of"%string :: "dimacs"%string :: name :: args) = POut (print_dimacs None None n F) /\
+  cnfgen_main ("-q"%string :: "-of"%string :: "opb"%string :: name :: args) = POut (print_opb None None (FCnf n F)) /\
+  cnfgen_main ("-q"%string :: "--output-format"%string :: "opb"%string :: name :: args) = POut (print_opb None None (FCnf n F)).
+Proof. exact output_format_opb. Qed.
+Print Assumptions pipeline_output_format.
 
 (* --quiet is -q, and repeating it changes nothing, whatever follows *)
 Theorem pipeline_quiet_spellings : forall rest,
@@ -170,8 +189,8 @@ Print Assumptions pipeline_env_total.
    still reads back as exactly the formula *)
 Theorem pipeline_env_roundtrip : forall version argv text, cnfgen_main_env version argv = POut text ->
   exists n F hh, pl_formula argv = FrOk n F /\ pl_header_choice version argv = Some hh /\
-                 text = print_dimacs hh None n F /\ 0 <= n /\ lits_in_range n F = true /\
-                 (printable n -> printable (len F) -> forall u, parse_dimacs u text = DOk n F).
+                 text = pl_write (pl_opb_of argv) hh n F /\ 0 <= n /\ lits_in_range n F = true /\
+                 (printable n -> printable (len F) -> pl_reads_back (pl_opb_of argv) text n F).
 Proof. exact env_roundtrip. Qed.
 Print Assumptions pipeline_env_roundtrip.
 
@@ -230,6 +249,12 @@ Example pipeline_nonvacuous :
   cnfgen_main ["-q"; "php"; "2"; "x"]%string = PCliError /\
   cnfgen_main ["-q"; "php"; "2"; "1"; "-T"]%string = PCliError /\
   cnfgen_main ["-q"; "php"; "--help"]%string = POutside /\
+  cnfgen_main ["-q"; "-of"; "opb"; "php"; "2"; "1"]%string = POut (lit "* #variable= 2 #constraint= 3
++1 x1 >= 1
++1 x2 >= 1
++1 ~x1 +1 ~x2 >= 1
+") /\
+  cnfgen_main ["-q"; "-of"; "png"; "php"; "2"; "1"]%string = PCliError /\
   cnfgen_main ["php"; "2"; "1"]%string = POutside /\
   pl_nat_token "3" 3 /\ pl_nat_token "+3" 3 /\ pl_nat_token " 3" 3 /\ pl_nat_token "3_0" 30 /\
   noT ["xor"; "2"]%string /\ pl_wellformed ["-q"; "php"; "2"; "1"]%string /\
